@@ -50,6 +50,47 @@ def f6(fl):
     return (fl[2], fl[3], fl[4], fl[5], fl[6], fl[7])
 
 
+def dec_mentries(d, acc, fl, out):
+    for _k in range(d.n()):
+        if d.n() == 0:
+            nm = d.n()
+            nm = None if nm == 0 else d.name(nm - 1)
+            t = d.ty()
+            bits = int(d.name(d.n())) if d.n() else None
+            val = d.opt()
+            out.append(('field', acc, nm, t, bits, val, (fl[2], fl[8], fl[5], fl[4])))
+        else:
+            nm, ctor, dtor, has_rt = d.name(d.n()), d.b(), d.b(), d.b()
+            t = d.ty()
+            q = d.mtail()
+            out.append(('method', acc, nm, ctor, dtor, t[1] if has_rt else None, t[2], t[3], q, f6(fl), None))
+
+
+def dec_citem(d, acc, out):
+    kind = d.n()
+    fl = d.mods()
+    if kind == 0:
+        dec_mentries(d, acc, fl, out)
+    elif kind == 1:
+        t = d.ty()
+        q = d.mtail()
+        out.append(('method', acc, 'operator', False, False, t[1], t[2], t[3], q, f6(fl), 'conversion'))
+    elif kind == 2:
+        op = ''.join(d.toks())
+        t = d.ty()
+        q = d.mtail()
+        out.append(('method', acc, 'operator' + op, False, False, t[1], t[2], t[3], q, f6(fl), op))
+    else:
+        if d.n() == 0:
+            b = d.n()
+            out.append(('friend-type', acc, 'void' if b == 0 else d.name(b)))
+        else:
+            nm = d.name(d.n())
+            t = d.ty()
+            q = d.mtail()
+            out.append(('friend-fn', acc, nm, f6(fl), t, q))
+
+
 def dec_class_items(o, names):
     d = Dec(o, names)
     d.i = 1
@@ -57,40 +98,7 @@ def dec_class_items(o, names):
     out = []
     for _ in range(cnt):
         acc = impl.TT[d.n()]
-        kind = d.n()
-        fl = d.mods()
-        if kind == 0:
-            for _k in range(d.n()):
-                if d.n() == 0:
-                    nm = d.n()
-                    nm = None if nm == 0 else d.name(nm - 1)
-                    t = d.ty()
-                    bits = int(d.name(d.n())) if d.n() else None
-                    val = d.opt()
-                    out.append(('field', acc, nm, t, bits, val, (fl[2], fl[8], fl[5], fl[4])))
-                else:
-                    nm, ctor, dtor, has_rt = d.name(d.n()), d.b(), d.b(), d.b()
-                    t = d.ty()
-                    q = d.mtail()
-                    out.append(('method', acc, nm, ctor, dtor, t[1] if has_rt else None, t[2], t[3], q, f6(fl), None))
-        elif kind == 1:
-            t = d.ty()
-            q = d.mtail()
-            out.append(('method', acc, 'operator', False, False, t[1], t[2], t[3], q, f6(fl), 'conversion'))
-        elif kind == 2:
-            op = ''.join(d.toks())
-            t = d.ty()
-            q = d.mtail()
-            out.append(('method', acc, 'operator' + op, False, False, t[1], t[2], t[3], q, f6(fl), op))
-        else:
-            if d.n() == 0:
-                b = d.n()
-                out.append(('friend-type', acc, 'void' if b == 0 else d.name(b)))
-            else:
-                nm = d.name(d.n())
-                t = d.ty()
-                q = d.mtail()
-                out.append(('friend-fn', acc, nm, f6(fl), t, q))
+        dec_citem(d, acc, out)
     return out, rest
 
 
@@ -115,7 +123,12 @@ def _val(x):
     return None if x is None else tuple(t.value for t in x.tokens)
 
 
-def _method(o):
+class Other(Exception):
+    pass
+
+
+def _method(o, ty=None):
+    ty = ty or decl.from_real
     if (o.has_trailing_return or o.msvc_convention or o.raw_requires or o.template or len(o.name.segments) != 1
             or not isinstance(o.name.segments[0], T.NameSpecifier) or o.name.segments[0].specialization):
         raise decl.Unrepresentable("method extras")
@@ -123,11 +136,31 @@ def _method(o):
     for q in o.parameters:
         if q.default is not None or q.param_pack:
             raise decl.Unrepresentable("parameter extras")
-        ps.append((decl.from_real(q.type), q.name))
-    rt = None if o.return_type is None else decl.from_real(o.return_type)
+        ps.append((ty(q.type), q.name))
+    rt = None if o.return_type is None else ty(o.return_type)
     q = (o.const, o.volatile, o.override, o.final, {None: 0, '&': 1, '&&': 2}[o.ref_qualifier], _val(o.throw), _val(o.noexcept),
          o.pure_virtual, o.deleted, o.default, o.has_body)
     return rt, tuple(ps), o.vararg, q, (o.constexpr, o.extern, o.inline, o.static, o.explicit, o.virtual)
+
+
+def class_item(kind, o, ty=None):
+    """one delivered class-scope object as the tuple the model side decodes to (Other: outside the comparison)"""
+    ty = ty or decl.from_real
+    if kind == 'f':
+        return ('field', o.access, o.name, ty(o.type), o.bits, _val(o.value), (o.constexpr, o.mutable, o.static, o.inline))
+    if kind == 'm':
+        rt, ps, va, q, fl = _method(o, ty)
+        return ('method', o.access, o.name.segments[0].name, o.constructor, o.destructor, rt, ps, va, q, fl, o.operator)
+    if o.cls is not None:
+        qn = o.cls.typename
+        if o.cls.template or qn.classkey or len(qn.segments) != 1 or not isinstance(qn.segments[0], T.NameSpecifier) or qn.segments[0].specialization:
+            raise Other()
+        return ('friend-type', o.cls.access, qn.segments[0].name)
+    m = o.fn
+    if m.operator or m.constructor or m.destructor:
+        raise Other()
+    rt, ps, va, q, fl = _method(m, ty)
+    return ('friend-fn', m.access, m.name.segments[0].name, fl, ('F', rt, ps, va), q)
 
 
 def real_class_body(key, cls, text):
@@ -147,24 +180,8 @@ def real_class_body(key, cls, text):
     out = []
     try:
         for kind, o in v.order:
-            if kind == 'f':
-                out.append(('field', o.access, o.name, decl.from_real(o.type), o.bits, _val(o.value), (o.constexpr, o.mutable, o.static, o.inline)))
-            elif kind == 'm':
-                rt, ps, va, q, fl = _method(o)
-                out.append(('method', o.access, o.name.segments[0].name, o.constructor, o.destructor, rt, ps, va, q, fl, o.operator))
-            else:
-                if o.cls is not None:
-                    qn = o.cls.typename
-                    if o.cls.template or qn.classkey or len(qn.segments) != 1 or not isinstance(qn.segments[0], T.NameSpecifier) or qn.segments[0].specialization:
-                        return ('other',)
-                    out.append(('friend-type', o.cls.access, qn.segments[0].name))
-                else:
-                    m = o.fn
-                    if m.operator or m.constructor or m.destructor:
-                        return ('other',)
-                    rt, ps, va, q, fl = _method(m)
-                    out.append(('friend-fn', m.access, m.name.segments[0].name, fl, ('F', rt, ps, va), q))
-    except decl.Unrepresentable:
+            out.append(class_item(kind, o))
+    except (decl.Unrepresentable, Other):
         return ('other',)
     return ('ok', out)
 
@@ -242,41 +259,46 @@ def corr_class_bodies(ctx, corr):
 # ---------------------------------------------------------------------------
 # namespace bodies
 
+def dec_entries(d, fl4, td, out):
+    for _k in range(d.n()):
+        kind, nm = d.n(), d.name(d.n())
+        t = d.ty()
+        if kind == 0:
+            val = d.opt()
+            out.append(('td', nm, t) if td else ('var', nm, t, val, fl4))
+        else:
+            th, ne, body, deleted = d.opt(), d.opt(), d.b(), d.b()
+            out.append(('tdfn', nm, t, ne) if td else ('fn', nm, t, th, ne, body, deleted, fl4, None))
+
+
+def dec_nitem(d, out):
+    kind = d.n()
+    if kind == 0:
+        fl = d.mods()
+        dec_entries(d, (fl[2], fl[3], fl[4], fl[5]), False, out)
+    elif kind == 1:
+        fl = d.mods()
+        op = ''.join(d.toks())
+        t = d.ty()
+        th, ne, body, deleted = d.opt(), d.opt(), d.b(), d.b()
+        out.append(('fn', 'operator' + op, t, th, ne, body, deleted, (fl[2], fl[3], fl[4], fl[5]), op))
+    elif kind == 2:
+        fl = d.mods()
+        segs = tuple(d.name(d.n()) for _k in range(d.n()))
+        t = d.ty()
+        q = d.mtail()
+        out.append(('mimpl', segs, t, q, (fl[2], fl[3], fl[4], fl[5])))
+    else:
+        dec_entries(d, None, True, out)
+
+
 def dec_ns_items(o, names):
     d = Dec(o, names)
     d.i = 1
     rest, cnt = d.n(), d.n()
     out = []
-
-    def entries(fl4, td):
-        for _k in range(d.n()):
-            kind, nm = d.n(), d.name(d.n())
-            t = d.ty()
-            if kind == 0:
-                val = d.opt()
-                out.append(('td', nm, t) if td else ('var', nm, t, val, fl4))
-            else:
-                th, ne, body, deleted = d.opt(), d.opt(), d.b(), d.b()
-                out.append(('tdfn', nm, t, ne) if td else ('fn', nm, t, th, ne, body, deleted, fl4, None))
     for _ in range(cnt):
-        kind = d.n()
-        if kind == 0:
-            fl = d.mods()
-            entries((fl[2], fl[3], fl[4], fl[5]), False)
-        elif kind == 1:
-            fl = d.mods()
-            op = ''.join(d.toks())
-            t = d.ty()
-            th, ne, body, deleted = d.opt(), d.opt(), d.b(), d.b()
-            out.append(('fn', 'operator' + op, t, th, ne, body, deleted, (fl[2], fl[3], fl[4], fl[5]), op))
-        elif kind == 2:
-            fl = d.mods()
-            segs = tuple(d.name(d.n()) for _k in range(d.n()))
-            t = d.ty()
-            q = d.mtail()
-            out.append(('mimpl', segs, t, q, (fl[2], fl[3], fl[4], fl[5])))
-        else:
-            entries(None, True)
+        dec_nitem(d, out)
     return out, rest
 
 
@@ -297,6 +319,43 @@ class _NsRec(impl.SimpleCxxVisitor):
         self.order.append(('m', m)); super().on_method_impl(state, m)
 
 
+def ns_item(kind, o, ty=None):
+    ty = ty or decl.from_real
+    if kind == 'v':
+        if o.template or len(o.name.segments) != 1:
+            raise Other()
+        return ('var', o.name.segments[0].name, ty(o.type), _val(o.value), (o.constexpr, o.extern, o.inline, o.static))
+    if kind == 't':
+        if isinstance(o.type, T.FunctionType):
+            ft = o.type
+            if ft.has_trailing_return or ft.msvc_convention or any(q.default is not None or q.param_pack for q in ft.parameters):
+                raise Other()
+            ps = tuple((ty(q.type), q.name) for q in ft.parameters)
+            return ('tdfn', o.name, ('F', ty(ft.return_type), ps, ft.vararg), _val(ft.noexcept))
+        return ('td', o.name, ty(o.type))
+    if kind == 'f':
+        if o.has_trailing_return or o.template or o.msvc_convention or o.raw_requires or len(o.name.segments) != 1 or o.name.segments[0].specialization:
+            raise Other()
+        if any(q.default is not None or q.param_pack for q in o.parameters):
+            raise Other()
+        ps = tuple((ty(q.type), q.name) for q in o.parameters)
+        return ('fn', o.name.segments[0].name, ('F', ty(o.return_type), ps, o.vararg), _val(o.throw), _val(o.noexcept),
+                o.has_body, o.deleted, (o.constexpr, o.extern, o.inline, o.static), o.operator)
+    if o.operator or o.has_trailing_return or o.template or o.msvc_convention or o.raw_requires or o.constructor or o.destructor:
+        raise Other()
+    segs = []
+    for sg in o.name.segments:
+        if not isinstance(sg, T.NameSpecifier) or sg.specialization or sg.name == '':
+            raise Other()
+        segs.append(sg.name)
+    if any(q.default is not None or q.param_pack for q in o.parameters):
+        raise Other()
+    ps = tuple((ty(q.type), q.name) for q in o.parameters)
+    q = (o.const, o.volatile, o.override, o.final, {None: 0, '&': 1, '&&': 2}[o.ref_qualifier], _val(o.throw), _val(o.noexcept),
+         o.pure_virtual, o.deleted, o.default, o.has_body)
+    return ('mimpl', tuple(segs), ('F', ty(o.return_type), ps, o.vararg), q, (o.constexpr, o.extern, o.inline, o.static))
+
+
 def real_ns_body(text):
     v = _NsRec()
     try:
@@ -311,42 +370,8 @@ def real_ns_body(text):
     out = []
     try:
         for kind, o in v.order:
-            if kind == 'v':
-                if o.template or len(o.name.segments) != 1:
-                    return ('other',)
-                out.append(('var', o.name.segments[0].name, decl.from_real(o.type), _val(o.value), (o.constexpr, o.extern, o.inline, o.static)))
-            elif kind == 't':
-                if isinstance(o.type, T.FunctionType):
-                    ft = o.type
-                    if ft.has_trailing_return or ft.msvc_convention or any(q.default is not None or q.param_pack for q in ft.parameters):
-                        return ('other',)
-                    ps = tuple((decl.from_real(q.type), q.name) for q in ft.parameters)
-                    out.append(('tdfn', o.name, ('F', decl.from_real(ft.return_type), ps, ft.vararg), _val(ft.noexcept)))
-                else:
-                    out.append(('td', o.name, decl.from_real(o.type)))
-            elif kind == 'f':
-                if o.has_trailing_return or o.template or o.msvc_convention or o.raw_requires or len(o.name.segments) != 1 or o.name.segments[0].specialization:
-                    return ('other',)
-                if any(q.default is not None or q.param_pack for q in o.parameters):
-                    return ('other',)
-                ps = tuple((decl.from_real(q.type), q.name) for q in o.parameters)
-                out.append(('fn', o.name.segments[0].name, ('F', decl.from_real(o.return_type), ps, o.vararg), _val(o.throw), _val(o.noexcept),
-                            o.has_body, o.deleted, (o.constexpr, o.extern, o.inline, o.static), o.operator))
-            else:
-                if o.operator or o.has_trailing_return or o.template or o.msvc_convention or o.raw_requires or o.constructor or o.destructor:
-                    return ('other',)
-                segs = []
-                for sg in o.name.segments:
-                    if not isinstance(sg, T.NameSpecifier) or sg.specialization or sg.name == '':
-                        return ('other',)
-                    segs.append(sg.name)
-                if any(q.default is not None or q.param_pack for q in o.parameters):
-                    return ('other',)
-                ps = tuple((decl.from_real(q.type), q.name) for q in o.parameters)
-                q = (o.const, o.volatile, o.override, o.final, {None: 0, '&': 1, '&&': 2}[o.ref_qualifier], _val(o.throw), _val(o.noexcept),
-                     o.pure_virtual, o.deleted, o.default, o.has_body)
-                out.append(('mimpl', tuple(segs), ('F', decl.from_real(o.return_type), ps, o.vararg), q, (o.constexpr, o.extern, o.inline, o.static)))
-    except decl.Unrepresentable:
+            out.append(ns_item(kind, o))
+    except (decl.Unrepresentable, Other):
         return ('other',)
     return ('ok', out)
 
